@@ -271,10 +271,11 @@ func (c *Calcium) doDeployWorkloadsOnNode(ctx context.Context,
 			var e error
 			defer func() {
 				if e != nil {
-					err = e
-					logger.Error(ctx, err)
-					createMsg.Error = err
+					logger.Error(ctx, e)
+					createMsg.Error = e
+					// the instances of a node are deployed concurrently: the result is shared
 					appendLock.Lock()
+					err = e
 					indices = append(indices, idx)
 					appendLock.Unlock()
 				}
